@@ -17,7 +17,9 @@ Inductive jtree :=
 | JJoin (p : jparams) (l r : jtree)
 (* a per-sample operator: instant functions, unary minus, vector/scalar arithmetic and
    comparisons with a literal (Func.func_step); [drops] = the metric name is dropped *)
-| JMap (drops : bool) (f : Z -> option Z) (t : jtree).
+| JMap (drops : bool) (f : Z -> option Z) (t : jtree)
+(* count [by|without] (labels) (t): the reused table of Agg.v *)
+| JCount (without : bool) (grouping : list N) (t : jtree).
 
 (* Series() of a node *)
 Fixpoint jseries (t : jtree) : list labels :=
@@ -25,6 +27,23 @@ Fixpoint jseries (t : jtree) : list labels :=
   | JLeaf ls _ _ => ls
   | JJoin p l r => op_series (jp_on p) (jp_ml p) (jp_incl p) (jp_card p) (jp_bool p) (jp_drops p) (jseries l) (jseries r)
   | JMap drops _ t => map (fun m => if drops then del_name m else m) (jseries t)
+  | JCount without grouping t => groups without grouping (jseries t)
+  end.
+
+Definition sv_of (ts : Z) (vec : list (nat * Z)) : stepvec := mkSV ts (map fst vec) (map snd vec).
+
+(* toVector: the groups that have a value, by group ID *)
+Definition emit_ids (ngroups : nat) (tbl : list (acc nat)) : list (nat * Z) :=
+  flat_map (fun g => let a := nth g tbl (dacc) in if a_has nat a then [(g, Z.of_nat (a_st nat a))] else []) (seq 0 ngroups).
+
+(* hashAggregate.Next over a stream, the table living across steps *)
+Fixpoint count_stream (without : bool) (grouping : list N) (slabels : list labels) (tbl : list (acc nat))
+         (stream : list (Z * list (nat * Z))) : list (Z * list (nat * Z)) :=
+  match stream with
+  | [] => []
+  | (ts, vec) :: r =>
+      let tbl' := count_step without grouping slabels tbl (sv_of ts vec) in
+      (ts, emit_ids (length (groups without grouping slabels)) tbl') :: count_stream without grouping slabels tbl' r
   end.
 
 Fixpoint zip_vecs (L R : list (Z * list (nat * Z))) : list (Z * list (nat * Z) * list (nat * Z)) :=
@@ -52,6 +71,12 @@ Fixpoint jrun (cf : cfg) (w : window) (t : jtree) : list (Z * list (nat * Z)) + 
       | inl strm => inl (map (fun tv => (fst tv, func_step Z f (snd tv))) strm)
       | inr e => inr e
       end
+  | JCount without grouping t =>
+      match jrun cf w t with
+      | inl strm => inl (count_stream without grouping (jseries t)
+                                      (repeat dacc (length (groups without grouping (jseries t)))) strm)
+      | inr e => inr e
+      end
   end.
 
 (* the reference at one timestamp *)
@@ -74,6 +99,13 @@ Fixpoint jref (lb : Z) (t : jtree) (ts : Z) : option (list (labels * Z)) :=
                                             end) smp)
       | None => None
       end
+  | JCount without grouping t =>
+      match jref lb t ts with
+      | Some smp =>
+          let present := map (fun mv => group_labels without grouping (fst mv)) smp in
+          Some (map (fun k => (k, Z.of_nat (count_occ labels_dec present k))) (nodup labels_dec present))
+      | None => None
+      end
   end.
 
 Fixpoint jok (t : jtree) : Prop :=
@@ -84,6 +116,7 @@ Fixpoint jok (t : jtree) : Prop :=
       one_side_unique (jp_on p) (jp_ml p) (one_side_series (jp_card p) (jseries l) (jseries r)) /\
       (is_one_to_one (jp_card p) = true -> jp_incl p = [])
   | JMap _ _ t => jok t
+  | JCount _ _ t => jok t
   end.
 
 Lemma nth_map_labels (g : labels -> labels) (l : list labels) i : (i < length l)%nat ->
@@ -99,6 +132,52 @@ Proof.
   induction l as [|a l IH]; simpl; intros H; [constructor|]. inversion H as [|? ? Hn Hnd]; subst.
   destruct (p a); simpl; [|apply IH; assumption]. constructor; [|apply IH; assumption].
   intros Hin. apply Hn. apply in_map_iff in Hin. destruct Hin as [x [Ex Hx]]. apply filter_In in Hx. rewrite <- Ex. apply in_map. tauto.
+Qed.
+
+(* ---- the count node ----------------------------------------------------------- *)
+
+Lemma count_stream_fresh without grouping slabels : forall (stream : list (Z * list (nat * Z))) tbl,
+  length tbl = length (groups without grouping slabels) ->
+  count_stream without grouping slabels tbl stream =
+  map (fun tv => (fst tv, emit_ids (length (groups without grouping slabels))
+                            (count_step without grouping slabels (repeat dacc (length (groups without grouping slabels)))
+                                        (sv_of (fst tv) (snd tv))))) stream.
+Proof.
+  induction stream as [|[ts vec] r IH]; intros tbl Hl; simpl; [reflexivity|].
+  assert (E : count_step without grouping slabels tbl (sv_of ts vec) =
+              count_step without grouping slabels (repeat dacc (length (groups without grouping slabels))) (sv_of ts vec)).
+  { unfold count_step. apply table_reset_local. rewrite repeat_length. assumption. }
+  rewrite E. f_equal. apply IH. rewrite count_step_length, repeat_length. reflexivity.
+Qed.
+
+Lemma emit_ids_fst n tbl : map fst (emit_ids n tbl) = filter (fun g => a_has nat (nth g tbl dacc)) (seq 0 n).
+Proof.
+  unfold emit_ids. induction (seq 0 n) as [|g l IH]; simpl; [reflexivity|].
+  rewrite map_app, IH. destruct (a_has nat (nth g tbl dacc)); reflexivity.
+Qed.
+
+Lemma nth_keys without grouping (slabels : list labels) i : (i < length slabels)%nat ->
+  nth i (keys without grouping slabels) [] = group_labels without grouping (nth i slabels []).
+Proof. intros Hi. unfold keys. apply nth_map_labels. assumption. Qed.
+
+Lemma count_occ_perm (l l' : list labels) k : Permutation l l' -> count_occ labels_dec l k = count_occ labels_dec l' k.
+Proof.
+  induction 1; simpl; [reflexivity| | |congruence].
+  - destruct (labels_dec x k); rewrite IHPermutation; reflexivity.
+  - destruct (labels_dec x k), (labels_dec y k); reflexivity.
+Qed.
+
+Lemma labelled_nodup (gs : list labels) (vec : list (nat * Z)) :
+  NoDup gs -> NoDup (map fst vec) -> (forall iv, In iv vec -> (fst iv < length gs)%nat) -> NoDup (labelled Z gs vec).
+Proof.
+  intros Hg Hn Hr. apply (NoDup_map_inv fst). unfold labelled. rewrite map_map. simpl.
+  induction vec as [|iv vec IH]; simpl; [constructor|].
+  simpl in Hn. inversion Hn as [|? ? Hni Hn']; subst. constructor.
+  - intros Hin. apply in_map_iff in Hin. destruct Hin as [jv [Ej Hj]].
+    assert (fst jv = fst iv).
+    { apply (proj1 (NoDup_nth gs []) Hg); [apply Hr; right; assumption|apply Hr; left; reflexivity|exact Ej]. }
+    apply Hni. rewrite <- H. apply in_map. assumption.
+  - apply IH; [assumption|intros x Hx; apply Hr; right; assumption].
 Qed.
 
 Lemma zip_vecs_map (fl fr : Z -> list (nat * Z)) (g : list Z) :
@@ -129,7 +208,7 @@ Theorem jtree_matches_reference cf w :
     forall ts, good_vec (length (jseries t)) (f ts) /\
                forall R, jref (c_lookback cf) t ts = Some R -> Permutation (labelled Z (jseries t) (f ts)) R.
 Proof.
-  intros HN HB Hlb Hw Hstart. induction t as [ls sers off|p l IHl r IHr|drops f t IH]; intros Hok.
+  intros HN HB Hlb Hw Hstart. induction t as [ls sers off|p l IHl r IHr|drops f t IH|without grouping t IH]; intros Hok.
   - destruct Hok as [Hlen Hs]. exists (fun ts => vec_of (select_step (c_lookback cf) off sers ts)). split.
     + cbn [jrun]. rewrite (run_covers_grid cf w (PSelect sers off) HN HB Hlb Hw Hs). simpl denote. rewrite map_map.
       f_equal. apply map_ext. intros ts. rewrite select_step_T. reflexivity.
@@ -197,4 +276,80 @@ Proof.
           destruct (f (snd iv)) as [v|]; simpl; [|reflexivity]. f_equal. f_equal.
           apply nth_map_labels. apply Hr. left. reflexivity. }
         rewrite E. apply Permutation_flat_map. exact PG.
+  - destruct (IH Hok) as [g [Eg Pg]].
+    set (sl := jseries t) in *. set (ng := length (groups without grouping sl)).
+    set (fresh := repeat dacc ng).
+    exists (fun ts => emit_ids ng (count_step without grouping sl fresh (sv_of ts (g ts)))). split.
+    + cbn [jrun]. rewrite Eg. fold sl. rewrite count_stream_fresh by apply repeat_length. rewrite map_map. reflexivity.
+    + intros ts. destruct (Pg ts) as [[G1 G2] PG].
+      set (ids := map fst (g ts)).
+      assert (Hr : Forall (fun i => (i < length (keys without grouping sl))%nat) ids).
+      { apply Forall_forall. intros i Hi. unfold ids in Hi. apply in_map_iff in Hi. destruct Hi as [iv [<- Hiv]].
+        unfold keys. rewrite map_length. apply G1. assumption. }
+      assert (Hslot : forall gi, (gi < ng)%nat ->
+                nth gi (count_step without grouping sl fresh (sv_of ts (g ts))) dacc =
+                match members_of without grouping sl gi ids with [] => dacc | ms => mkAcc nat true (length ms) end).
+      { intros gi Hgi. apply (slot_value without grouping sl (map (fun _ => []) sl)); [rewrite map_length; reflexivity|exact Hgi]. }
+      split.
+      * split.
+        -- intros iv Hiv. simpl jseries. fold sl. unfold emit_ids in Hiv. apply in_flat_map in Hiv.
+           destruct Hiv as [gi [Hgi Hiv]]. apply in_seq in Hgi.
+           destruct (a_has nat (nth gi _ dacc)); [|destruct Hiv]. destruct Hiv as [<-|[]]. simpl. unfold ng in Hgi. lia.
+        -- rewrite emit_ids_fst. apply NoDup_filter. apply seq_NoDup.
+      * intros R HR. simpl in HR. destruct (jref (c_lookback cf) t ts) as [S0|] eqn:ES; [|discriminate].
+        inversion HR; subst R. clear HR. specialize (PG S0 eq_refl).
+        set (present := map (fun mv : labels * Z => group_labels without grouping (fst mv)) S0).
+        set (keysE := map (fun i => nth i (keys without grouping sl) []) ids).
+        assert (Pk : Permutation keysE present).
+        { unfold keysE, present, ids. rewrite map_map.
+          assert (E : map (fun x : nat * Z => nth (fst x) (keys without grouping sl) []) (g ts) =
+                      map (fun mv : labels * Z => group_labels without grouping (fst mv)) (labelled Z sl (g ts))).
+          { unfold labelled. rewrite map_map. apply map_ext_in. intros iv Hiv. simpl. apply nth_keys. apply G1. assumption. }
+          rewrite E. apply Permutation_map. exact PG. }
+        destruct (groups_spec without grouping sl) as [Hgnd [_ Hgn]].
+        apply NoDup_Permutation.
+        -- (* the engine's groups are distinct *)
+           apply labelled_nodup.
+           ++ simpl jseries. fold sl. exact Hgnd.
+           ++ rewrite emit_ids_fst. apply NoDup_filter. apply seq_NoDup.
+           ++ intros iv Hiv. simpl jseries. fold sl. unfold emit_ids in Hiv. apply in_flat_map in Hiv.
+              destruct Hiv as [gi [Hgi Hiv]]. apply in_seq in Hgi.
+              destruct (a_has nat (nth gi _ dacc)); [|destruct Hiv]. destruct Hiv as [<-|[]]. simpl. unfold ng in Hgi. lia.
+        -- apply (NoDup_map_inv fst). rewrite map_map. simpl. rewrite map_id. apply NoDup_nodup.
+        -- intros [m n]. unfold labelled. rewrite in_map_iff. rewrite in_map_iff. split.
+           ++ intros [[gi cnt] [Heq Hin]]. simpl in Heq. inversion Heq; subst m n. clear Heq.
+              unfold emit_ids in Hin. apply in_flat_map in Hin. destruct Hin as [gi' [Hgi Hin]]. apply in_seq in Hgi.
+              rewrite Hslot in Hin by lia.
+              destruct (members_of without grouping sl gi' ids) as [|i0 ms] eqn:Em; [destruct Hin|].
+              simpl in Hin. destruct Hin as [Heq|[]]. inversion Heq; subst gi cnt. clear Heq.
+              exists (nth gi' (groups without grouping sl) []). split.
+              ** simpl jseries. fold sl. f_equal. f_equal.
+                 rewrite <- (count_occ_perm _ _ _ Pk). unfold keysE.
+                 rewrite <- (members_length without grouping sl gi' ids) by (assumption || (unfold ng in Hgi; lia)).
+                 rewrite Em. reflexivity.
+              ** apply nodup_In. apply (Permutation_in _ Pk). unfold keysE.
+                 assert (Hi0 : In i0 (members_of without grouping sl gi' ids)) by (rewrite Em; left; reflexivity).
+                 unfold members_of in Hi0. apply filter_In in Hi0. destruct Hi0 as [Hi0 He]. apply Nat.eqb_eq in He.
+                 apply in_map_iff. exists i0. split; [|assumption].
+                 apply (member_iff_key without grouping sl); [unfold ng in Hgi; lia| |assumption].
+                 rewrite Forall_forall in Hr. apply Hr. assumption.
+           ++ intros [k [Heq Hk]]. inversion Heq; subst m n. clear Heq.
+              apply nodup_In in Hk. apply (Permutation_in _ (Permutation_sym Pk)) in Hk. unfold keysE in Hk.
+              apply in_map_iff in Hk. destruct Hk as [i [Hki Hi]].
+              rewrite Forall_forall in Hr. pose proof (Hr i Hi) as Hil. specialize (Hgn i Hil).
+              assert (Hg : (nth i (inputs without grouping sl) 0 < ng)%nat).
+              { unfold ng. apply nth_error_Some. rewrite Hgn. apply nth_error_Some. assumption. }
+              set (gi := nth i (inputs without grouping sl) 0%nat) in *.
+              assert (Hmem : In i (members_of without grouping sl gi ids)).
+              { unfold members_of. apply filter_In. split; [assumption|apply Nat.eqb_refl]. }
+              assert (Hkey : nth gi (groups without grouping sl) [] = k).
+              { rewrite <- Hki. symmetry. apply (member_iff_key without grouping sl); [exact Hg|exact Hil|reflexivity]. }
+              exists (gi, Z.of_nat (length (members_of without grouping sl gi ids))). split.
+              ** simpl. simpl jseries. fold sl. rewrite Hkey. f_equal. f_equal.
+                 rewrite <- (count_occ_perm _ _ _ Pk). unfold keysE. rewrite <- Hkey.
+                 apply (members_length without grouping sl gi ids Hg). apply Forall_forall. assumption.
+              ** unfold emit_ids. apply in_flat_map. exists gi. split; [apply in_seq; lia|].
+                 rewrite Hslot by exact Hg.
+                 destruct (members_of without grouping sl gi ids) as [|i0 ms] eqn:Em; [destruct Hmem|].
+                 simpl. left. reflexivity.
 Qed.
